@@ -29,7 +29,11 @@ MaxSeq(s)    == CHOOSE v \in RangeOf(s) : \A u \in RangeOf(s) : v >= u
 (* den > 0.  A logged result so large that resq * den leaves TLC's 32-bit integers cannot be close to an expected value that *)
 (* was computed without overflow: it is rejected instead of making the evaluation fail.                                  *)
 Close(resq, num, den, q, tol) ==
-    IF Abs(resq) > 2147483647 \div den THEN FALSE ELSE Abs(resq * den - num * q) <= tol * den
+    IF Abs(resq) > 2147483647 \div den THEN FALSE
+    ELSE LET x == resq * den  y == num * q  t == tol * den IN
+         \* of opposite signs: |x - y| = |x| + |y| (and the difference itself may leave 32 bits)
+         IF (x > 0 /\ y < 0) \/ (x < 0 /\ y > 0) THEN Abs(x) <= t /\ Abs(y) <= t /\ Abs(x - y) <= t
+         ELSE Abs(x - y) <= t
 
 (* ---- C06 ---- *)
 MeanOK(r, S, resq, qe, tol)        == Close(resq, Sum(r), S * Len(r), Q(qe), tol)
